@@ -165,6 +165,104 @@ def _run_history(name, seed, mons, fault, kw, script):
     return sc
 
 
+def odd_spi_sizes(ck, mons, seed, ci):
+    """An AUTHENTICATED peer (independent implementation, valid credentials) names a CHILD_SA SPI that is not 4 octets long: in its IKE_AUTH response, in its
+    answer to our CHILD_SA rekey or creation (the IKE_SA then already has a CHILD_SA), in its own IKE_AUTH / CREATE_CHILD_SA request. Whatever the daemon does
+    (refuse the CHILD_SA, close the IKE_SA), the SAD monitor's equation holds after every step: nothing installed stays behind untracked."""
+    from vf.ref import party, codec
+    from vf.checks import c02
+    import random
+    where, size = [(w_, z_) for w_ in ('ike_auth_response', 'rekey_child_response', 'new_child_response', 'ike_auth_request', 'create_child_request') for z_ in (0, 1, 3, 5, 8, 16)][ci]
+    rng = random.Random(seed)
+    sim, a, b = S.make_pair(seed, mode='tunnel', a_subnet='10.1.0.0/24', b_subnet='10.2.0.0/24', ip_proto='any', a_port=0, b_port=0)
+    sim.case = {'family': 'odd-spi-size', 'where': where, 'spi_size': size, 'actions': []}
+    for m_ in mons:
+        if hasattr(m_, 'reset'):
+            m_.reset()
+        sim.monitors.append(m_.on_step)
+    a4n, b4n = bytes([10, 1, 0, 0]), bytes([10, 2, 0, 0])
+    tsi = [{'tstype': 7, 'ipproto': 0, 'sport': 0, 'eport': 65535, 'saddr': b4n, 'eaddr': b4n[:3] + b'\xff'}]
+    tsr = [{'tstype': 7, 'ipproto': 0, 'sport': 0, 'eport': 65535, 'saddr': a4n, 'eaddr': a4n[:3] + b'\xff'}]
+    child = [{'type': 1, 'id': 12, 'keylen': 256}, {'type': 3, 'id': 12, 'keylen': None}, {'type': 5, 'id': 0, 'keylen': None}]
+    if where.endswith('_request'):
+        # the peer initiates
+        p = party.RefParty(S.B4, S.A4, rng)
+        trs = [{'type': 1, 'id': 12, 'keylen': 256}, {'type': 3, 'id': 12, 'keylen': None}, {'type': 2, 'id': 5, 'keylen': None}, {'type': 4, 'id': 19, 'keylen': None}]
+        sim.inject(a, S.B4, S.A4, p.init_request(trs, 19))
+        res = next((d.data for d in sim.net if d.dst == S.B4), None)
+        sim.net.clear()
+        if res is None or not p.take_init_response(res):
+            return
+        if where == 'ike_auth_request':
+            p.child_spi = gen_bytes(rng, size)
+        sim.inject(a, S.B4, S.A4, p.auth_request(c02.ID_B[0], c02.ID_B[1], 2, p.auth_psk(c02.PSK_B, *c02.ID_B), child, 3, tsi, tsr, False))
+        sim.net.clear()
+        if where == 'create_child_request':
+            pls = [{'type': codec.SA, 'critical': False, 'proposals': [{'num': 1, 'proto': 3, 'spi': gen_bytes(rng, size), 'transforms': child}]},
+                   {'type': codec.NONCE, 'critical': False, 'data': gen_bytes(rng, 32)}, {'type': codec.TSI, 'critical': False, 'selectors': tsi}, {'type': codec.TSR, 'critical': False, 'selectors': tsr}]
+            sim.inject(a, S.B4, S.A4, p.seal(36, 2, pls, False))
+            sim.net.clear()
+    else:
+        p = party.RefParty(S.B4, S.A4, rng)
+        sim.acquire(a, 0, saddr='10.1.0.1', daddr='10.2.0.1')
+        req = next((d.data for d in sim.net if d.dst == S.B4), None)
+        sim.net.clear()
+        if req is None:
+            return
+        sim.inject(a, S.B4, S.A4, p.respond_init(req))
+        areq = next((d.data for d in sim.net if d.dst == S.B4), None)
+        sim.net.clear()
+        if areq is None:
+            return
+        if where == 'ike_auth_response':
+            p.child_spi = gen_bytes(rng, size)
+        sim.inject(a, S.B4, S.A4, p.respond_auth(areq, c02.ID_B[0], c02.ID_B[1], 2, p.auth_psk(c02.PSK_B, *c02.ID_B)))
+        sim.net.clear()
+        if where != 'ike_auth_response':
+            sa = next((x for x in a.ctl.ike_sas if x.state.name == 'ESTABLISHED' and x.child_sas), None)
+            if sa is None:
+                ck.count('odd_spi.setup_failed')
+                return
+            if where == 'rekey_child_response':
+                sim.expire(a, bytes(sa.child_sas[0].inbound_spi), False, daddr=S.A4)
+            else:
+                sim.acquire(a, 0, saddr='10.1.0.9', daddr='10.2.0.9', sport=4009)
+            creq = next((d.data for d in sim.net if d.dst == S.B4), None)
+            sim.net.clear()
+            if creq is None:
+                return
+            hdr_, inner_, _i = p.open(creq)
+            prop = next(x for x in inner_ if x['type'] == codec.SA)['proposals'][0]
+            chosen = {}
+            for t_ in prop['transforms']:
+                chosen.setdefault(t_['type'], t_)
+            pls = [{'type': codec.SA, 'critical': False, 'proposals': [{'num': prop['num'], 'proto': prop['proto'], 'spi': gen_bytes(rng, size), 'transforms': [chosen[k_] for k_ in sorted(chosen) if k_ != 4]}]},
+                   {'type': codec.NONCE, 'critical': False, 'data': gen_bytes(rng, 32)}]
+            for ty_ in (codec.TSI, codec.TSR):
+                ts_ = next((x for x in inner_ if x['type'] == ty_), None)
+                pls.append({'type': ty_, 'critical': False, 'selectors': [ts_['selectors'][-1]]})
+            sim.inject(a, S.B4, S.A4, p.seal(36, hdr_['mid'], pls, True))
+            sim.net.clear()
+    for _ in range(4):
+        sim.clock.advance(1.0)
+        a.step('tick')
+        sim.net.clear()
+    ck.count('odd_spi.runs')
+    ck.seen('odd_spi.kinds', (where, size))
+    ck.nontrivial(('odd-spi', where, size, len(a.ctl.ike_sas), len(a.kernel.sad)))
+    # (the monitor has compared the SAD with the tracked CHILD_SAs after every step; the end state once more, explicitly)
+    tracked = {k_ for x in a.ctl.ike_sas for k_ in monitors.child_keys(x)}
+    if set(a.kernel.sad) != tracked:
+        ck.violation(f'sad-mismatch-after-an-authentic-message-with-an-odd-spi-size:{where}', {'spi_size': size, 'installed': sorted(map(repr, a.kernel.sad)), 'tracked': sorted(map(repr, tracked)),
+                                                                                                'ike_sas': [x.state.name for x in a.ctl.ike_sas]}, sim.case)
+    else:
+        ck.count('odd_spi.sad_equals_tracked')
+
+
+def gen_bytes(rng, n):
+    return bytes(rng.randrange(256) for _ in range(n))
+
+
 def judge_new_child(ck, sc):
     for who, same_ike, gone in getattr(sc, 'new_child_checks', []):
         ck.count('new_child_keeps_others.checked')
@@ -228,6 +326,9 @@ def run(ck):
         ck.nontrivial(repr(sc.sim.case['actions']))
         ck.count('walks')
     hub_walks(ck, sad, base)
+    for ci in range(30):
+        if ck.mine(ci):
+            odd_spi_sizes(ck, mons, base + 600 + ci, ci)
 
 
 def hub_walks(ck, sad, base):
@@ -248,6 +349,7 @@ def hub_walks(ck, sad, base):
 
 def verdict(ck):
     ck.floor('hub walks', ck.counters['hub.walks'], 80)
+    ck.floor('authentic messages with a CHILD_SA SPI of another size than 4 after which the SAD equalled the tracked CHILD_SAs', ck.counters['odd_spi.sad_equals_tracked'], 24)
     ck.floor('CHILD_SA creations after a (possibly refused) rekey that left every other pair in the kernel', ck.counters['new_child_keeps_others.held'], 30)
     ck.floor('steps compared', ck.counters['sad.steps_checked'], 20000)
     ck.floor('non-empty equal comparisons', ck.counters['sad.equal_nonempty'], 10000)
